@@ -44,6 +44,16 @@ ElemVecs(lazy) ==
    \cup {El("asseg4", EncSeg(sg, TRUE)) : sg \in {Seg(st, as) : st \in 1..4, as \in {<<<<0, 1>>>>, <<<<1, 0>>, <<0, 7>>>>, LongAs(3)}}}
    \cup {El("asseg2", EncSeg(sg, FALSE)) : sg \in {Seg(st, as) : st \in 1..4, as \in {<<<<0, 1>>>>, <<<<0, 65535>>, <<0, 7>>>>, LongAs(3)}}}
    \cup {El("cap", EncCap(c)) : c \in {CapKinds(<<0, 65002>>)[i] : i \in 1..11} \cup MoreCaps(<<0, 65002>>)}
+\* C06, text forms: the same values with every IPv4 address and prefix of the request written with leading zeros
+\* (`sp` digits per octet at least); construction is refused, or the message decodes to the values the text denotes
+SpellIps == {<<192, 168, 1, 10>>, <<10, 1, 2, 3>>, <<172, 16, 0, 1>>, <<10, 20, 30, 40>>, <<8, 9, 1, 77>>}
+SpellVecs(lazy) ==
+   {[kind |-> "updspell", asn4 |-> a, var |-> Canon, sp |-> sp, u |-> Upd(<<>>, <<At(1, 0), At(2, <<Seg(2, <<<<0, 65001>>>>)>>)>> \o x, <<P6[6]>>)] :
+        a \in BOOLEAN, sp \in {2, 3},
+        x \in {<<At(3, i)>> : i \in SpellIps} \cup {<<At(3, <<10, 0, 0, 1>>), At(9, i)>> : i \in SpellIps} \cup {<<At(3, <<10, 0, 0, 1>>), At(10, <<i, <<10, 10, 10, 10>>>>)>> : i \in SpellIps}
+               \cup {<<At(3, <<10, 0, 0, 1>>), At(7, [as |-> <<0, 65001>>, ip |-> i])>> : i \in SpellIps}}
+   \cup {[kind |-> "updspell", asn4 |-> TRUE, var |-> Canon, sp |-> sp, u |-> Upd(wd, Base(TRUE), nl)] : sp \in {2, 3},
+        wd \in {<<>>, <<Pfx(24, <<10, 10, 10, 0>>)>>}, nl \in {<<Pfx(24, <<10, 8, 10, 0>>)>>, <<Pfx(32, <<10, 20, 30, 40>>), Pfx(16, <<172, 16, 0, 0>>)>>}}
 OpenVecs(lazy) == {[kind |-> "open", u |-> o] : o \in {x \in OpenPool(0) : NeedsAs4(x)}}
 OpenRtVecs(lazy) == {[kind |-> "openrt", u |-> o] : o \in OpenRtPool(0)}
 NotifVecs(lazy) == {[kind |-> "notif", u |-> n] : n \in NotifPool(0)}
@@ -56,7 +66,7 @@ Vecs == CASE FAMILY = "upd" -> UpdVecs(0) [] FAMILY = "updvar" -> VarVecs(0) [] 
                                  \cup {[kind |-> "comm", sub |-> 32, u |-> x] : x \in {y \in LargeMulti : SubSeq(y.o, 1, 12) # SubSeq(y.o, 13, 24) /\ SubSeq(y.o, 13, 24) # SubSeq(y.o, 25, 36) /\ SubSeq(y.o, 1, 12) # SubSeq(y.o, 25, 36)}}
           [] FAMILY = "updap" -> {[kind |-> "updap", asn4 |-> TRUE, var |-> Canon, u |-> x.u, wids |-> x.wids, nids |-> x.nids] : x \in AddPathVecs}
           [] FAMILY \in {"mp_ipv6", "mp_lu4", "mp_lu6", "mp_vpn4", "mp_vpn6", "mp_evpn", "mp_fs"} -> MpPool(SubSeq(FAMILY, 4, Len(FAMILY)))
-          [] FAMILY = "enc" -> EncVecs(0) [] FAMILY = "mpdec" -> Mp4Vecs(0)
+          [] FAMILY = "enc" -> EncVecs(0) [] FAMILY = "mpdec" -> Mp4Vecs(0) [] FAMILY = "updspell" -> SpellVecs(0)
           [] FAMILY = "elems" -> ElemVecs(0)
           [] FAMILY = "rr" -> RRVecs(0) [] FAMILY = "ka" -> {[kind |-> "ka", u |-> [x |-> 0]]}
 
@@ -80,7 +90,7 @@ Next == FALSE /\ UNCHANGED vec
 \* theorem on the specification: reference encodings are structurally valid (add-path identifiers change the
 \* prefix-list format, so those variants are outside the walker's scope)
 RefWellFormed ==
-   CASE vec.kind \in {"upd", "updvar"} -> (~vec.var.pathids => WfUpdate(Bytes(vec), vec.asn4))
+   CASE vec.kind \in {"upd", "updvar", "updspell"} -> (~vec.var.pathids => WfUpdate(Bytes(vec), vec.asn4))
      [] vec.kind \in {"open", "openrt"} -> WfOpen(Bytes(vec))
      [] vec.kind = "notif" -> WfNotification(Bytes(vec))
      [] vec.kind = "rr" -> WfRouteRefresh(Bytes(vec))
